@@ -147,7 +147,7 @@ def pyte_agrees(acc, term, init_bytes, written, case):
     """Second opinion on the terminal model: the same bytes fed to pyte.HistoryScreen must give the same screen, cursor and scrollback."""
     import pyte
 
-    screen = pyte.HistoryScreen(term.w, term.h, history=1000, ratio=0.001)
+    screen = pyte.HistoryScreen(term.w, term.h, history=100000, ratio=0.00001)
     stream = pyte.Stream(screen)
     stream.feed(init_bytes)
     stream.feed(written)
@@ -317,11 +317,12 @@ WIDE_TEXTS = ("", "こ", "こん", "aこb", "e\u0301te\u0301", "abcde", "こんa
 def explore_wide(args):
     """Rows containing double-width and zero-width characters (each row at most w-1 columns wide, so that no row ends in the last
     column): the same oracle, with rows expanded to terminal columns."""
-    tier, seed, h, w, k0, depth = args
+    tier, seed, h, w, k0, depth = args[:6]
+    family = args[6] if len(args) > 6 else "wide_characters"
     acc = Acc(seed=seed, sample_stride=997)
     world = World(False, True)
     desc, term0 = [(d, t) for d, t in initial_terms(h, w) if d["kind"] == "printed_lines" and d["k"] == k0][0]
-    base = {"size": [h, w], "keep_last_line": False, "hide_cursor": True, "initial": {"kind": "printed_lines", "k": k0}, "family": "wide_characters"}
+    base = {"size": [h, w], "keep_last_line": False, "hide_cursor": True, "initial": {"kind": "printed_lines", "k": k0}, "family": family}
     T0 = term0.r
     hist0 = history_lines(term0, T0)
     world.proxy.log = []
@@ -330,7 +331,40 @@ def explore_wide(args):
     world.proxy.log = None
     texts = [t for t in WIDE_TEXTS if sum(2 if ord(c) > 0x2E80 else (0 if c in "\u0301\u200d" else 1) for c in t) <= w - 1]
 
+    def long_arrays(step):
+        # lines of 40+ characters that share long prefixes (text AND formatting) from one render to the next, the prefixes
+        # containing double-width and combining characters: anything that updates only the changed tail of a line has to
+        # convert characters to columns
+        P = ">>> t = '日本語のタ' + ', and some more text to fo"
+        Q = "e\u0301te\u0301 " + "abcdefghij" * 3 + "klmnopq"
+        A = "x" * 41
+        pool = [P + "l", P + "x", P[:33] + "CHANGED", Q + "r", Q + "s", A + "1", A + "2", P, "short", Q[:20] + "こ" + Q[20:]]
+        pool = [t for t in pool if sum(2 if ord(c) > 0x2E80 else (0 if c in "\u0301\u200d" else 1) for c in t) <= w - 1]
+        out = [((), (0, 0))]
+        for n in range(1, h + 1):
+            for off in range(len(pool)):
+                rows = []
+                for i in range(n):
+                    t = pool[(off + i * 2 + (step if i == 0 else 0)) % len(pool)]
+                    # formatting depends on the row and the column only (not on the step): two runs per row
+                    rows.append(tuple((c, (("fg", 31),) if (j < 12 and i % 2 == 0) else (("underline", True),) if j < 12 else ()) for j, c in enumerate(t)))
+                arr = tuple(rows)
+                out.append((arr, (n - 1, max(0, len(expand_cells(arr[n - 1])) - 1))))
+        return out
+
+    def tall_arrays(step):
+        # one render that has to scroll in hundreds of lines more than the window is high
+        out = []
+        for n in (0, 2, h + 1, h + 499, h + 501, h + 520, 2 * h + 1000):
+            arr = tuple(tuple((c, (("fg", 31),) if i % 7 == 0 else ()) for c in ("%d.%d" % (step, i))[: w - 1]) for i in range(n))
+            out.append((arr, (max(0, n - 1), 0)))
+        return out
+
     def arrays(step):
+        if family == "long_lines":
+            return long_arrays(step)
+        if family == "tall_arrays":
+            return tall_arrays(step)
         out = []
         for n in range(0, h + 2):
             for off in range(0, len(texts), 2 if n > 1 else 1):
@@ -379,6 +413,12 @@ def run(ctx):
     wide = [(ctx.tier, ctx.seed, h, w, k0, 3 if ctx.thorough else 2) for (h, w) in ((3, 7), (2, 9)) for k0 in range(0, h + 1)]
     for d in ctx.pmap(explore_wide, wide):
         rep.merge(d, "wide_characters")
+    longl = [(ctx.tier, ctx.seed, 3, w, k0, 3 if ctx.thorough else 2, "long_lines") for w in (48, 60) for k0 in (0, 2, 4)]
+    for d in ctx.pmap(explore_wide, longl):
+        rep.merge(d, "long_lines_sharing_prefixes")
+    tall = [(ctx.tier, ctx.seed, h, 8, k0, 2, "tall_arrays") for h in (3, 5) for k0 in range(0, h + 2)]
+    for d in ctx.pmap(explore_wide, tall):
+        rep.merge(d, "arrays_hundreds_of_rows_taller_than_the_window")
     shards = []
     sizes = [(2, 2), (3, 2), (3, 3), (1, 2), (2, 5)] + ([(4, 3), (5, 1)] if ctx.thorough else [])
     for (h, w) in sizes:
